@@ -117,7 +117,10 @@ def run(ctx):
                 cases.append((leaf, mk(ln), 1))
                 if ln in (255, 65536): cases.append((('dict', (('k', ('u', 1)), ('v', leaf)), False), {'k': 7, 'v': mk(ln)}, 1)); cases.append((('array', leaf, None), [mk(3), mk(ln)], 1))
         syn = [impl.type_syntax(t) for t, v, h in cases]
-        model = modelrun_lines('write', ['%d %s %s' % (h, s, gen_types.enc_of(t, v)) for (t, v, h), s in zip(cases, syn)])
+        wl_ = ['%d %s %s' % (h, s, gen_types.enc_of(t, v)) for (t, v, h), s in zip(cases, syn)]
+        model = modelrun_lines('write', wl_)
+        from tools import coqeval
+        coqeval.cross_check(ctx, 'C16', ['write ' + l for l, s in zip(wl_, syn) if all(32 <= ch < 127 for ch in s.encode())], 'write', limit=80)
         for (t, v, h), s, m in zip(cases, syn, model):
             lt = lib.make(t); py = to_py(t, v)
             if rng.random() < 0.5: py = shuffle_keys(py, rng)
